@@ -239,7 +239,15 @@ def rule_modules(ctx: Ctx, repo: Repo) -> None:
     subsets: List[Tuple[int, ...]] = [tuple(range(len(defs)))]
     subsets += [(i,) for i in range(len(defs))]
     subsets += [(0, 2, 3), (2, 7), (1, 6), (4, 5, 0), (9, 0), (8, 2), (7, 8)]
+    import itertools as _it
+    ordered: List[Tuple[int, ...]] = []
     for sub in subsets:
+        ordered.append(sub)
+        if 2 <= len(sub) <= 4:
+            ordered.extend(p for p in _it.permutations(sub) if p != sub)
+    ordered.append((2, 7, 3, 0, 6, 9, 4, 1, 5))  # classes interleaved: C, D, C, module, C, other module, C ...
+    ordered.append((7, 2, 9, 0, 3))
+    for sub in ordered:
         entries = [RM.definition(*defs[i]) for i in sub]
         res = RM.build_module_stubs(repo, entries, lambda ent: {"typing": ("Any",), ent.fields["module"].v: ("C",)})
         want: Dict[str, List[Tuple[Tuple[str, ...], str, str, bool]]] = {}
